@@ -579,3 +579,59 @@ def propagation_table(repo, run, rule, flag):
         run.violation(rule, fi, '_propagate_implicit_values / ' + flag, msg, witness=bad[:5])
     else:
         run.ok(rule, fi, '_propagate_implicit_values hands inherited %s to children (%d rows)' % (flag, rows), 'independent of other explicit flags; recursion on change')
+
+
+def promotion_table(repo, run, rule):
+    """type promotion of the surviving container (_maybe_promote): for every ordered pair of node classes the more
+    specific kind survives and its content is taken from the winner (self) with the conversion matching the two
+    built-in bases; decided from the source with the class relations of the parsed tree."""
+    fi = repo.func('ConfigNode._maybe_promote')
+    classes = [c for c in repo.subclasses('ConfigDict') + repo.subclasses('ConfigList')]
+    classes += ['ConfigNode', 'RequiredNode', 'ClearNode']
+
+    def kind(c):
+        m_ = repo.mro(c)
+        return 'list' if 'list' in m_ else ('dict' if 'dict' in m_ else None)
+    bad = []
+    rows = 0
+    for S in classes:
+        for O in classes:
+            me, ot = node_obj('self', S), node_obj('other', O)
+            f = FDE(repo, stubs={'clear', 'extend', 'update', '_propagate_implicit_values'})
+            r = fde_guard(lambda: f.call(fi, me, ot))
+            rows += 1
+            calls = [(e[1], getattr(e[2], 'name', None), tuple(getattr(a, 'name', repr(a)) for a in e[3])) for e in r.effects if e[0] == 'call']
+            composed = repo.is_subclass(S, 'ComposedNode') and repo.is_subclass(O, 'ComposedNode')
+            plain = lambda c: c in ('ConfigDict', 'ConfigList')
+            if S == O or not composed:
+                want_other = False
+            elif repo.is_subclass(O, S):
+                want_other = True
+            elif repo.is_subclass(S, O):
+                want_other = False
+            else:
+                want_other = plain(S) and not plain(O)
+            got_other = getattr(r.ret, 'name', None) == 'other'
+            if got_other != want_other:
+                bad.append((S, O, 'returns %s, expected %s' % (getattr(r.ret, 'name', r.ret), 'other (the more specific kind)' if want_other else 'self')))
+                continue
+            if not want_other:
+                if calls:
+                    bad.append((S, O, 'mutates although nothing is promoted: %s' % calls))
+                continue
+            # content transfer
+            same_kind = kind(S) == kind(O)
+            if kind(O) == 'list':
+                want_arg = 'self' if same_kind else 'self.values()'
+                want = [('clear', 'other', ()), ('extend', 'other', (want_arg,)), ('__dict__.update', 'other', ('self',))]
+            else:
+                want_arg = 'self' if same_kind else 'enumerate(self)'
+                want = [('clear', 'other', ()), ('update', 'other', (want_arg,)), ('__dict__.update', 'other', ('self',))]
+            if calls != want:
+                bad.append((S, O, 'promotion performs %s, expected %s' % (calls, want)))
+    run.table(rule, rows, '_maybe_promote over %d x %d node classes' % (len(classes), len(classes)))
+    if bad:
+        S, O, why = bad[0]
+        run.violation(rule, fi, '_maybe_promote(%s <- %s)' % (S, O), 'winner of kind %s replacing a node of kind %s: %s [%d of %d pairs]' % (S, O, why, len(bad), rows), witness=bad[:6])
+    else:
+        run.ok(rule, fi, '_maybe_promote decision + content-transfer table (%d class pairs)' % rows, 'more specific kind survives, emptied and refilled from the winner with the conversion matching both built-in bases, attributes copied')
